@@ -38,10 +38,11 @@ type WCall struct {
 type WAct struct {
 	Kind   string // now | delay | twice | unknown | never | bad | unkthen | hold | frag
 	Delay  time.Duration
-	Pieces int  // frag: number of sub-packages (2..3; more when the body needs it)
-	Long   bool // frag: a body that does not fit into one frame
-	Mid    bool // frag: a heartbeat between the sub-packages
-	Probe  bool // a heartbeat right after the response: its reply proves that the writer has dealt with the response
+	Pieces int    // frag: number of sub-packages (2..3; more when the body needs it)
+	Long   bool   // frag: a body that does not fit into one frame
+	Mid    bool   // frag: a heartbeat between the sub-packages
+	Probe  bool   // a heartbeat right after the response: its reply proves that the writer has dealt with the response
+	Typ    uint16 // now / delay: answer with this echoing response type instead of the command's usual one (0 = usual)
 }
 
 type WScn struct {
@@ -289,10 +290,15 @@ func (r *wrun) sendFrag(cmd, echo uint16, a WAct) {
 	}
 }
 
-func (r *wrun) sendResp(cmd uint16, echo uint16, bad bool) {
+func (r *wrun) sendResp(cmd uint16, echo uint16, bad bool) { r.sendRespT(cmd, echo, bad, 0) }
+
+func (r *wrun) sendRespT(cmd uint16, echo uint16, bad bool, force uint16) {
 	typ := respTypeOf[cmd]
 	if typ == 0 {
 		typ = 0x0001
+	}
+	if force != 0 && typ != 0x1003 {
+		typ = force
 	}
 	switch {
 	case bad:
@@ -400,10 +406,10 @@ func (r *wrun) handle(f PFrame) {
 	}
 	switch act.Kind {
 	case "now":
-		r.sendResp(cmd, echo, false)
+		r.sendRespT(cmd, echo, false, act.Typ)
 		probe()
 	case "delay":
-		later(act.Delay, func() { r.sendResp(cmd, echo, false); probe() })
+		later(act.Delay, func() { r.sendRespT(cmd, echo, false, act.Typ); probe() })
 	case "frag":
 		if act.Delay > 0 {
 			later(act.Delay, func() { r.sendFrag(cmd, echo, act); probe() })
@@ -958,7 +964,11 @@ func GenW(kind string, seed int64) *WScn {
 	case "order": // all answered, in an order decided by the delays
 		for i := 0; i < k; i++ {
 			sc.Calls = append(sc.Calls, mk(i, ms(400)))
-			sc.Acts = append(sc.Acts, WAct{Kind: "delay", Delay: ms(rng.Intn(40))})
+			a := WAct{Kind: "delay", Delay: ms(rng.Intn(40))}
+			if rng.Intn(3) == 0 { // any of the five echoing types answers any command: the match is by serial
+				a.Typ, a.Probe = []uint16{0x0001, 0x0104, 0x0805, 0x1205, 0x1206}[rng.Intn(5)], true
+			}
+			sc.Acts = append(sc.Acts, a)
 		}
 		beats(rng.Intn(3), 40)
 	case "frag": // responses that arrive in 2-3 sub-packages (long 0x1205 / 0x0805 / 0x0104 or short bodies cut up),
